@@ -170,10 +170,11 @@ def run(ctx: Ctx):
               and any(isinstance(x, ast.Raise) and "TypeError" in norm(x) for s in n.body for x in ast.walk(s))]
     kinds = set()
     for g in guards:
-        t = norm(g.test)
-        if "isinstance(%s" % param in t and "Molecule" in t:
+        t = norm(g.test).replace(" ", "")
+        if t == "notisinstance(%s,Molecule)" % param:
             kinds.add("type")
-        if "self._refmolecule" in t and param in t and ("!=" in t or "==" in t):
+        if t in ("self._refmolecule!=%s" % param, "%s!=self._refmolecule" % param,
+                 "notself._refmolecule==%s" % param, "not%s==self._refmolecule" % param):
             kinds.add("species")
     # effectful statements of __call__
     effectful = []
